@@ -18,7 +18,8 @@ RULE = ("fault enumeration: for every scenario (operation {create, replace, dele
         "the store (Python audit events: open for writing, rename, remove, mkdir, rmdir, chmod, utime, ...); then the operation is re-run on a fresh copy of the pre-state once "
         "per mutation k with os._exit(137) immediately before mutation k (user-space buffers are lost exactly as with SIGKILL), plus torn variants in which every file that was "
         "open for writing at that instant (read from /proc/self/fd) is cut to zero and to half of its final content, plus once per mutation k with the process killed at the first "
-        "trace event of the calling frame after mutation k returned (before any unhooked write / flush / close that follows it); each crash state is re-opened by a fresh store object: all "
+        "trace event of the calling frame after mutation k returned (before any unhooked write / flush / close that follows it); on every crash state the next operation of "
+        "the client (a shorter write of the same target / the same property; stale *.lock files removed first if they refuse it) must be acknowledged and read back exactly; each crash state is re-opened by a fresh store object: all "
         "members must read and parse, the target must be old or new, everything else unchanged, `git fsck --connectivity-only` and `git rev-list --objects --all` must succeed; "
         "thorough adds SIGKILL at random instants of a loop of acknowledged writes; distinct = distinct (op, store, meta, prior, crash index, variant) points")
 
@@ -194,7 +195,10 @@ def run_scenario(sc, res, rng, base, env):
     os.environ["HOME"] = os.path.join(base, "home")
     os.makedirs(os.environ["HOME"], exist_ok=True)
     build_prestate(backend, meta, prior, rng, pre)
-    bodies = {"new": gen.ical(rng, "target-uid", "NEWTOKEN", rich=False), "replace": gen.ical(rng, "prior-0b" if prior >= 4 else "prior-0", "REPLACED", rich=False)}
+    long_summary = "the interrupted write is a long one " * 6
+    bodies = {"new": gen.ical(rng, "target-uid", "NEWTOKEN", rich=False, summary=long_summary), "replace": gen.ical(rng, "prior-0b" if prior >= 4 else "prior-0", "REPLACED", rich=False, summary=long_summary),
+              # what the client sends next (shorter than the interrupted body): it is acknowledged, so it must read back
+              "follow-create": gen.ical(rng, "target-uid", "F", rich=False, summary="f"), "follow-p0": gen.ical(rng, "prior-0b" if prior >= 4 else "prior-0", "F", rich=False, summary="f")}
     old_state, probs = state_of(backend, pre)
     if probs:
         res.inconclusive.append(f"{tag}: pre-state has problems {probs}")
@@ -318,11 +322,76 @@ def run_scenario(sc, res, rng, base, env):
             locks = [f for r_, d_, fs in os.walk(work) for f in fs if f.endswith(".lock")]
             if locks:
                 res.count("crash_states_with_stale_lock_files")
+            follow_up(backend, work, op, bodies, st, res, tag, prior, where, variant, sc, k)
     res.count("straddled:" + tag, 1 if (seen_old and seen_new) else 0)
     res.count("scenario_seen_old:" + tag, 1 if seen_old else 0)
     res.count("scenario_seen_new:" + tag, 1 if seen_new else 0)
     if len(res.samples) < 3:
         res.sample({"scenario": sc, "mutations": [[e[0], os.path.relpath(e[1], os.path.realpath(work)) if os.path.isabs(e[1]) else e[1]] for e in rec["events"]][:40]})
+
+
+def follow_up(backend, work, op, bodies, st_crash, res, tag, prior, where, variant, sc, k, cleaned=False):
+    """the next acknowledged operation on the crash state (same target, shorter value) must read back exactly:
+    what the interrupted operation left behind (temporary files, partial objects) must not leak into it"""
+    name = {"create": "target.ics", "replace": "p0.ics", "delete": "p0.ics"}.get(op)
+    wit = {"scenario": sc, "k": k, "variant": variant}
+    try:
+        store = storedrv.open_store(backend, work)
+        if name is not None:
+            fb = bodies["follow-create" if op == "create" else "follow-p0"]
+            store.import_one(name, "text/calendar", [fb])
+        elif op == "set-displayname":
+            store.set_displayname("n")
+        elif op == "set-color":
+            store.set_color("#3")
+        elif op == "set-description":
+            store.set_description("d")
+        else:
+            return
+    except Exception as e:  # noqa
+        cls = storedrv.classify(e)
+        if (cls == "Locked" or "Locked" in type(e).__name__) and not cleaned:
+            res.count("followups_refused_by_stale_lock")
+            # what an administrator does after a crash (git asks for the same): remove the stale lock files, try again
+            for r_, d_, fs in os.walk(work):
+                for f in fs:
+                    if f.endswith(".lock"):
+                        os.unlink(os.path.join(r_, f))
+            try:
+                st_clean, _p = state_of(backend, work)
+            except Exception:
+                return
+            return follow_up(backend, work, op, bodies, st_clean, res, tag, prior, where, variant + "+stale-locks-removed", sc, k, cleaned=True)
+        res.violation(f"{tag}/next-operation-after-crash-fails/{variant}/{cls.replace('EXC:', '')}", f"{tag} prior={prior}: crash {where} [{variant}]: the next operation on the same target raises {e!r}", wit)
+        return
+    res.count("followups_acknowledged")
+    try:
+        st2, probs = state_of(backend, work)
+    except Exception as e:  # noqa
+        res.violation(f"{tag}/store-does-not-open-after-next-operation/{variant}/{type(e).__name__}", f"{tag} prior={prior}: crash {where} [{variant}], then an acknowledged operation: the store cannot be read: {e!r}", wit)
+        return
+    for pr in probs:
+        res.violation(f"{tag}/unreadable-after-next-operation/{variant}", f"{tag} prior={prior}: crash {where} [{variant}], then an acknowledged operation on the same target: {pr}", wit)
+    if name is not None:
+        try:
+            fresh = storedrv.open_store(backend, work)
+            got = None
+            for n_, ct, et in fresh.iter_with_etag():
+                if n_ == name:
+                    got = b"".join(fresh.get_file(n_, ct, et).content)
+            ok = got is not None and icl.canon_bytes(got) == icl.canon_bytes(fb)
+        except icl.ICLError:
+            ok = False
+        if not ok:
+            res.violation(f"{tag}/acknowledged-write-after-crash-reads-back-differently/{variant}", f"{tag} prior={prior}: crash {where} [{variant}]: the next write of {name} was acknowledged but reads back as {got[:300] if got else got!r}", wit)
+        others_before = {n_: h for n_, h in st_crash["members"].items() if n_ != name}
+        others_after = {n_: h for n_, h in st2["members"].items() if n_ != name}
+        if others_before != others_after:
+            res.violation(f"{tag}/next-operation-after-crash-changes-other-members/{variant}", f"{tag} prior={prior}: crash {where} [{variant}]: other members changed by the next write: {others_before} -> {others_after}", wit)
+    else:
+        key = {"set-displayname": ("displayname", "n"), "set-color": ("color", "#3"), "set-description": ("description", "d")}[op]
+        if st2["meta"].get(key[0]) != key[1]:
+            res.violation(f"{tag}/acknowledged-property-set-after-crash-reads-back-differently/{variant}", f"{tag} prior={prior}: crash {where} [{variant}]: {key[0]} set to {key[1]!r} reads back {st2['meta'].get(key[0])!r}", wit)
 
 
 def describe_diff(old, new, got):
@@ -508,6 +577,7 @@ def check(tier, seed, t0):
     c = merged["counters"]
     guards = [("scenarios", c.get("scenarios", 0), int(len(scs) * 0.9)), ("crash points audited", c.get("crash_points", 0), 2000 if tier == "quick" else 3500),
               ("crash points right after a mutation returned", c.get("crash_points:killed-right-after", 0), 500),
+              ("acknowledged operations on a crash state read back", c.get("followups_acknowledged", 0), 800),
               ("crash states equal to the old state", c.get("state_old", 0), 300), ("crash states equal to the new state", c.get("state_new", 0), 80)]
     for backend in ("tree", "bare", "vdir"):
         for op in ("create", "replace", "delete"):
